@@ -340,8 +340,12 @@ def find_octopus_base(
                 lookup_stamp,
                 shallows=parents_provider.shallows,
             )
-            next_lcas.extend(res)
+            next_lcas.extend(r for r in res if r not in next_lcas)
         lcas = next_lcas[:]
+        if len(lcas) > 1:
+            # Pairwise merge bases of different candidates can be ancestors
+            # of one another; keep only the best ones.
+            lcas = _remove_redundant(lookup_parents, lcas, parents_provider.shallows)
     return lcas
 
 
